@@ -27,10 +27,13 @@ CLAIMS = {
                      "every run; Props/C01.v proves (vm_compute, closed) that this table equals cell-for-cell the committed golden table "
                      "audited against WHATWG 13.2.5, that every arm ends in a transition and character references start only where "
                      "the spec allows. The table's meaning (interpreter) is tied to the real Tokenizer by differential runs over "
-                     "every (state, character class) cell and grammar-generated inputs; the golden-table interpreter is the oracle "
-                     "that produces failing inputs. The full refinement theorem against an independent WHATWG interpreter is not proved.",
+                     "every (state, character class) cell and grammar-generated inputs; the golden-table interpreter is one oracle "
+                     "that produces failing inputs; the second is an independent transcription of WHATWG 13.2.5 in Python "
+                     "(lib/whatwg_tok.py, written from the standard, entity table from CPython) run on the same inputs "
+                     "(tokens compared without parse errors). The full refinement theorem against an independent WHATWG "
+                     "interpreter in Coq is not proved.",
                 note=TOK_NOTE + " The golden table is an audited snapshot, not an independent transcription.",
-                tech="source-to-Coq translation + reflective Coq checks + golden-table differential"),
+                tech="source-to-Coq translation + reflective Coq checks + golden-table differential + independent WHATWG tokenizer oracle"),
     "C03": dict(cat="proof", ref="DESIGN.md section 5 C03",
                 text="PARTIAL proof, with the core theorem closed. Props/C03.v proves (generic Coq theorem TokIR/Chunk.v, instantiated on the "
                      "table regenerated from html5ever/src/tokenizer/mod.rs on every run) that for the tokenizer's reference semantics "
